@@ -129,10 +129,13 @@ inductive Op (N : Type)
   | findFunc (n : N)   -- unexports2.go:43
   | findVar (n : N)    -- unexports2.go:56
   | expose (n : N)     -- subvert.go:37
+  | allFuncs           -- subvert.go:57 AllFunctions
 
 inductive Res
   | ok (a : Addr)
   | err (e : Err)
+  /-- `AllFunctions`: a freshly built set; `k` = how many names it holds -/
+  | set (k : Nat)
   deriving DecidableEq, Repr
 
 def resOf (r : Except Err Addr) (align : Addr) : Res :=
@@ -140,10 +143,20 @@ def resOf (r : Except Err Addr) (align : Addr) : Res :=
   | .ok a => .ok (a + align)       -- `uintptr(fn.Entry) + funcAlignment`
   | .error e => .err e
 
+/-- subvert.go:57 `AllFunctions`: `GetSymbolTable()`, then a NEW map with one key per function name is built and
+    returned (:64 `functions = make(map[string]bool)`).  Nothing of it is kept by the package, so whatever the caller
+    does to the returned map afterwards (delete, clear, insert) is outside the package state by construction; the model
+    returns the size of the set.  It does not run `initAlignment`. -/
+def allFuncsIn {N : Type} [DecidableEq N] (r : Except Err (Table N)) : Res :=
+  match r with
+  | .error e => .err e
+  | .ok t => .set (t.funcs.map Prod.fst).eraseDups.length
+
 def step {N : Type} [DecidableEq N] (env : Env N) (s : St N) : Op N → St N × Res
   | .findFunc n => let s1 := initAlign env s; (touch env s1, resOf (funcSym env s1 n) s1.fAlign)
   | .findVar n => let s1 := initAlign env s; (touch env s1, resOf (varSym env s1 n) s1.vAlign)
   | .expose n => let s1 := initAlign env s; (touch env s1, resOf (funcSym env s1 n) s1.fAlign)
+  | .allFuncs => (touch env s, allFuncsIn (table env s))
 
 /-- a whole history from a given package state: final state and the result of every call, in order -/
 def run {N : Type} [DecidableEq N] (env : Env N) : St N → List (Op N) → St N × List Res
